@@ -16,6 +16,7 @@ PROP = {
     ],
     "units": [
         {"pkg": "c02", "test": "TestConcurrentQuotaHistories", "quick": 500, "thorough": 4000, "shards": 16},
+        {"pkg": "c02", "test": "TestConcurrentBursts", "quick": 80, "thorough": 800, "shards": 8},
         {"pkg": "c02", "test": "TestRegressionFixedDefects", "kind": "plain"},
     ],
     "technique": "stateful property-based testing (rapid) of the real engine on a virtual clock; oracle = independent in-flight-set model per quota of the chain + bound from observed verdicts + final liveness probe",
